@@ -93,8 +93,10 @@ func cmdCheck(args []string) int {
 	smtlog := fs.String("smtlog", "", "prefix for SMT-LIB2 logs")
 	verbose := fs.Bool("v", false, "verbose")
 	vd := fs.String("verif", "/verif", "verif dir")
+	rd := fs.String("repo", "/repo", "repository tree to encode (default /repo; a scratch worktree for seed triage)")
 	fs.Parse(args)
 	verifDir = *vd
+	repoDir = *rd
 	if env := os.Getenv("VERIF_TIER"); env != "" && *tier == "" {
 		*tier = env
 	}
